@@ -2,12 +2,18 @@
 """prints the prompt handed to a mutant-writing sub-agent for one property (property text only)."""
 import json, sys
 pid = sys.argv[1]
+rnd = sys.argv[2] if len(sys.argv) > 2 else ""
 for line in open('/verif/properties.jsonl'):
     p = json.loads(line)
     if p['id'] == pid:
         break
-wt = f"/tmp/wt-{pid}"
-out = f"/tmp/seed-{pid}"
+wt = f"/tmp/wt-{pid}{rnd}"
+out = f"/tmp/seed-{pid}{rnd}"
+extra = ""
+if rnd:
+    extra = """
+Additional guidance for this round: earlier rounds already produced the most direct changes at the most obvious code sites for this property. Look for something different: changes in shared / helper code (code generation, typing helpers, the serialization mixin, origin / source classes, caches, module-level state, configuration handling) whose effect on this property is indirect; interactions between two features (e.g. inheritance x caching, options x error paths, shared objects x registry); order- or history-dependent effects (something that only goes wrong the second time, or after another class / pattern / tree was used first); boundary sizes and unusual but legal values. Each change must still be a plausible refactoring / optimisation / cleanup.
+"""
 print(f"""You are helping to evaluate a test-suite for the open-source Python library pyoak (mishamsk/pyoak: ASTs as frozen dataclasses, node registry, content hashing, traversal, xpath search, pattern-matching DSL, serialization, plus a `pyoak.legacy` package).
 
 You have your own scratch git worktree of the library at {wt} (source in {wt}/src/pyoak, tests in {wt}/tests). Work ONLY inside {wt} and {out}. Do not read or touch /repo, /verif or any other directory; do not use the network.
@@ -18,6 +24,7 @@ Here is a semantic property the library is supposed to satisfy:
   STATEMENT: {p['statement']}
   QUANTIFIED OVER: {p['quantifier']['text']}
 
+{extra}
 Your task: produce TWO different, realistic code changes (bugs) to the library source under {wt}/src/pyoak, each of which
   (a) BREAKS the property above (observable through the public API),
   (b) still imports fine and still PASSES the complete existing test suite, which you run with
